@@ -337,11 +337,19 @@ func (wk *walker) envAction() {
 				w.EnvSetLifecycle(k, "Active")
 			} else if st != "Archived" {
 				w.EnvSetLifecycle(k, "Paused")
+			} else {
+				// the API does not restrict lifecycle transitions: a user may flip an archived set back
+				w.EnvSetLifecycle(k, []string{"Active", "Paused"}[rng.Intn(2)])
 			}
 		}
 	case r < 78 && wk.opts.AllowArchive:
 		if k, ok := pick(sets); ok {
-			w.EnvSetLifecycle(k, "Archived")
+			m := w.Store.Snapshot(k)
+			if getStr(nestedMap(m, "spec"), "lifecycleState") == "Archived" {
+				w.EnvSetLifecycle(k, []string{"Active", "Paused"}[rng.Intn(2)])
+			} else {
+				w.EnvSetLifecycle(k, "Archived")
+			}
 		}
 	case r < 88 && wk.opts.AllowCRDelete:
 		if k, ok := pick(sets); ok {
@@ -540,6 +548,31 @@ func moreScenarios() []Scenario {
 		}
 	}
 	return []Scenario{
+		{Name: "handover-cpnone", Setup: func(w *World) {
+			cp := corev1alpha1.CollisionProtectionNone
+			w.EnvCreate(NewObjectSet("a1", []PhaseSpec{
+				{Name: "p1", CP: cp, Objects: []*unstructured.Unstructured{ConfigMap("shared", "x"), Widget("w1", 1)}},
+				{Name: "p2", CP: cp, Objects: []*unstructured.Unstructured{ConfigMap("dropped", "x")}},
+			}))
+			w.RunPass("os", KOS("a1"))
+			w.EnvCreate(NewObjectSet("a2", []PhaseSpec{
+				{Name: "p1", CP: cp, Objects: []*unstructured.Unstructured{ConfigMap("shared", "y"), Widget("w1", 2)}},
+				{Name: "p2", CP: cp, Objects: []*unstructured.Unstructured{ConfigMap("added", "x")}},
+			}, "a1"))
+		}},
+		{Name: "handover-ifnoctrl", Setup: func(w *World) {
+			cp := corev1alpha1.CollisionProtectionIfNoController
+			w.EnvCreate(NewObjectSet("a1", []PhaseSpec{
+				{Name: "p1", CP: cp, Objects: []*unstructured.Unstructured{ConfigMap("shared", "x"), Widget("w1", 1)}},
+			}))
+			w.RunPass("os", KOS("a1"))
+			w.EnvCreate(NewObjectSet("a2", []PhaseSpec{
+				{Name: "p1", CP: cp, Objects: []*unstructured.Unstructured{ConfigMap("shared", "y"), Widget("w1", 2)}},
+			}, "a1"))
+			w.EnvCreate(NewObjectSet("a3", []PhaseSpec{
+				{Name: "p1", CP: cp, Objects: []*unstructured.Unstructured{ConfigMap("shared", "z"), Widget("w1", 3)}},
+			}, "a1", "a2"))
+		}},
 		{Name: "sliced", Setup: func(w *World) {
 			sl := &corev1alpha1.ObjectSlice{ObjectMeta: metav1.ObjectMeta{Name: "sl1", Namespace: NS}}
 			sl.Objects = toPhases([]PhaseSpec{{Objects: []*unstructured.Unstructured{ConfigMap("cm1", "x"), Widget("w1", 1)}}})[0].Objects
